@@ -433,9 +433,9 @@ func (l *layout) make(id string, n int, zero bool) []reflect.Value {
 		if r.M == "flat" || (l.fn.Kind == "dec" && r.M == "grp") {
 			s := reflect.MakeSlice(typ, 0, r.N)
 			for e := 1; e <= r.N; e++ {
-				if e == 1 && l.fn.Enc.NilRes && r.M == "flat" {
+				if e <= 2 && l.fn.Enc.NilRes && r.M == "flat" {
 					// a nil member (a nil interface if the group is one of interfaces) is a
-					// member like any other
+					// member like any other, and so are two of them
 					s = reflect.Append(s, reflect.Zero(typ.Elem()))
 					continue
 				}
